@@ -341,6 +341,10 @@ def corr(pid, tier, seed):
     if not ok:
         print(lg[-2000:])
         return 2
+    okd, dlog = L.build_driver()
+    if not okd:
+        print("driver does not build:", dlog[-2000:])
+        return 2
     g = P["gen"](tier, rng)
     cases = g if isinstance(g, list) else [c for ch in g for c in ch]
     lines = ["%d\t%s" % (i, c[0]) for i, c in enumerate(cases)]
